@@ -222,7 +222,7 @@ def main(argv=None):
       harness_errors.append('case %s: %s' % (c['name'], str(o).strip().splitlines()[-1] if o else st))
 
   # ---- classify
-  candidates = [r for r in all_results if r['verdict'] == 'sat' and r['expect'] == 'unsat']
+  candidates = [r for r in all_results if r['verdict'] == 'sat' and (r['expect'] == 'unsat' or r.get('probe'))]
   twins_bad = [r for r in all_results if r['expect'] == 'sat' and r['verdict'] != 'sat']
   unknown = [r for r in all_results if r['verdict'] == 'unknown' and r['expect'] == 'unsat']
   for r in twins_bad:
@@ -249,6 +249,8 @@ def main(argv=None):
         continue
       r['replay_result'] = o
       if not o.get('reproduced'):
+        if r.get('probe'):
+          continue  # probe of a twin model on the real code behaved as expected
         if r.get('weak_witness'):
           r['verdict'] = 'unknown'
           r['reason'] = 'exact-arithmetic witness without margin does not reproduce in floating point'
@@ -320,7 +322,7 @@ def main(argv=None):
                    unknown, harness_errors, wall, case_wall)
   log('[%s] %d queries: %d unsat, %d sat (%d known-finding, %d violation), %d unknown, %d twin(s) ok; '
       'solver %.1fs, wall %.1fs -> exit %d' % (
-          prop, len(all_results), len(main_unsat), len(candidates), len(known_hits), len(violations), len(unknown),
+          prop, len(all_results), len(main_unsat), len([r for r in candidates if not r.get('probe')]), len(known_hits), len(violations), len(unknown),
           len([r for r in all_results if r['expect'] == 'sat' and r['verdict'] == 'sat']),
           sum(r['solve_s'] for r in all_results), wall, rc))
   return rc
